@@ -35,12 +35,24 @@ edit('src/searcher.rs', [
  ("if min_depth == 0 || depth >= min_depth {", "if !(min_depth != 0 && depth < min_depth) {"),
  ("if !self.is_buffered() && self.query.limit > 0 && self.query.limit <= self.found", "if self.query.limit > 0 && self.found >= self.query.limit && !self.is_buffered()"),
 ])
+edit('src/parser.rs', [("""                            } else if s.starts_with("arc") {
+                                archives = true;
+                                mode = RootParsingMode::Options;
+                            } else if s.starts_with("sym") {
+                                symlinks = true;
+                                mode = RootParsingMode::Options;""", """                            } else if s.starts_with("sym") {
+                                mode = RootParsingMode::Options;
+                                symlinks = true;
+                            } else if s == "arc" || s == "archives" || s.starts_with("arch") {
+                                archives = true;
+                                mode = RootParsingMode::Options;""")])
+edit('src/expr.rs', [("Some(ref right) => Self::contains_numeric_field(right),\n            None => false,", "None => false,\n            Some(ref r) => Self::contains_numeric_field(r),")])
 edit('src/operators.rs', [("            Op::Eq => Op::Ne,\n            Op::Ne => Op::Eq,", "            Op::Ne => Op::Eq,\n            Op::Eq => Op::Ne,")])
 edit('src/mode.rs', [("mode & S_IRUSR == S_IRUSR", "(mode & S_IRUSR) != 0")])
 edit('src/parser.rs', [("                        if let Ok(limit) = s.parse() {\n                            return Ok(limit);", "                        if let Ok(n) = s.parse() {\n                            return Ok(n);")])
 bad = 0
 env = dict(os.environ, VERIF_REPO=d)
-for prop in ['C01', 'C02', 'C03', 'C04', 'C06', 'C10']:
+for prop in ['C01', 'C02', 'C03', 'C04', 'C05', 'C06', 'C10', 'C11']:
     p = subprocess.run(['python3', os.path.join(os.path.dirname(__file__), 'run_check.py'), prop], env=env, capture_output=True, text=True)
     print(prop, 'exit', p.returncode, p.stdout.strip().split('\n')[-1])
     bad += p.returncode == 1
